@@ -3,7 +3,7 @@
    H is an arbitrary digest function: nothing is assumed about MD5.  Model: model/C01_model.v
    (GetBlock, PutBlock, CompareAndTouch, UnixVolume.Get/Compare/WriteBlock, handleGET/handlePUT). *)
 From Coq Require Import NArith List String Bool.
-From AV Require Import lib.Str model.C01_model model.C01_run proofs.C01_proofs.
+From AV Require Import lib.Str model.C01_model model.C01_run proofs.C01_proofs model.C01_pool proofs.C01_pool_proofs.
 Import ListNotations.
 Local Open Scope N_scope.
 
@@ -105,3 +105,53 @@ Theorem C01_example_put :
   code (fst (handle_put ex_H {| vols := ex_vols; counter := 0 |} "bbb2"%string {| cid := 2; clen := 7 |})) = 200.
 Proof. exact ex_put_acknowledged. Qed.
 Print Assumptions C01_example_put.
+
+(* ---- overlapping requests and the shared buffer pool (model/C01_pool.v) ----
+   Any number of GET/HEAD/PUT requests in flight on one router, interleaved arbitrarily between the
+   points where a handler can be held up (waiting for a buffer, before its volume work, while the body
+   is uploaded, while the response body is written to a slow client, before the buffer goes back), and
+   any other user of the pool overwriting buffers that are IN the pool.  From every initial state
+   (any volumes, any set of distinct buffers holding anything, any list of requests) and after ANY
+   sequence of scheduler/environment steps:
+   (a) the volume steps, in the order in which they happened, are a run of the sequential model [run]
+       (the one the correspondence check evaluates), and the volume state is the state after that run;
+   (b) every finished request got exactly the answer of the sequential handler at its volume step. *)
+Theorem C01_overlapping_requests_linearizable : forall (H : content -> string) k bufs m reqs ls s,
+  NoDup bufs ->
+  steps H (init_pool k bufs m reqs false) ls = Some s ->
+  map fst (run H k (lin_ops s)) = lin_resps s /\
+  ks s = run_state H k (lin_ops s) /\
+  (forall i o r, nth_error (thr s) i = Some (o, Fin r) -> In (i, o, r) (lin s)) /\
+  (forall i o r, In (i, o, r) (lin s) -> nth_error reqs i = Some o).
+Proof. exact pool_linearizable. Qed.
+Print Assumptions C01_overlapping_requests_linearizable.
+
+(* hence, under any overlap, GET/HEAD succeeds only with a body whose digest is the requested name and
+   whose length is the reported one ... *)
+Theorem C01_overlapping_get_sound : forall (H : content -> string) k bufs m reqs ls s i h r,
+  NoDup bufs ->
+  steps H (init_pool k bufs m reqs false) ls = Some s ->
+  (nth_error (thr s) i = Some (Get h, Fin r) \/ nth_error (thr s) i = Some (Head h, Fin r)) ->
+  code r = 200 ->
+  exists c, body r = Some c /\ H c = h /\ clength r = Some (clen c) /\ clen c <= BlockSize.
+Proof. exact pool_get_sound. Qed.
+Print Assumptions C01_overlapping_get_sound.
+
+(* ... and an acknowledged PUT was judged on the body its own client sent *)
+Theorem C01_overlapping_put_sound : forall (H : content -> string) k bufs m reqs ls s i h d r,
+  NoDup bufs ->
+  steps H (init_pool k bufs m reqs false) ls = Some s ->
+  nth_error (thr s) i = Some (Put h d, Fin r) ->
+  code r = 200 -> H d = h /\ clen d <= BlockSize.
+Proof. exact pool_put_sound. Qed.
+Print Assumptions C01_overlapping_put_sound.
+
+(* regression witness about the VARIANT only (early = true: handleGET gives its buffer back as soon as
+   GetBlock has returned, before the body is written): GET "aaa1" answers 200 with the bytes of "bbb2" *)
+Theorem C01_variant_early_release_refuted :
+  exists s r c,
+    steps ex_pool_H (init_pool {| vols := ex_pool_vols; counter := 0 |} [0%nat; 1%nat] (fun _ => {| cid := 9; clen := 0 |})
+                               [Get "aaa1"%string; Get "bbb2"%string] true) ex_pool_sched = Some s /\
+    nth_error (thr s) 0 = Some (Get "aaa1"%string, Fin r) /\ code r = 200 /\ body r = Some c /\ ex_pool_H c <> "aaa1"%string.
+Proof. exact pool_early_release_refuted. Qed.
+Print Assumptions C01_variant_early_release_refuted.
